@@ -1503,4 +1503,55 @@ theorem basename_display {c : Cfg} (h : c.Ok) (hcs : c.cs = false) (p : Str) :
     rw [hd, hb]
     exact basename_join_ends h _ a hl.right
 
+
+/-! ### both flag values of `normalizePath` / `pathsMatch`, optional arguments (follow-up R4) -/
+
+theorem mem_replaceAlt {c : Cfg} {p : Str} {x : Char} (hx : x ∈ replaceAlt c p) : x = c.sep ∨ x ∈ p := by
+  unfold replaceAlt at hx
+  cases ha : c.alt with
+  | none => rw [ha] at hx; exact Or.inr hx
+  | some a =>
+    rw [ha] at hx
+    simp only [replaceChar, List.mem_map] at hx
+    obtain ⟨y, hy, rfl⟩ := hx
+    split
+    · left; rfl
+    · right; exact hy
+theorem mem_canon {sep x : Char} {l : List Str} (hx : x ∈ canon sep l) : x = sep ∨ ∃ f ∈ l, x ∈ f := by
+  simp only [canon, List.mem_cons] at hx
+  rcases hx with e | hm
+  · exact Or.inl e
+  · exact mem_intercalate hm
+theorem mem_nrm {c : Cfg} (h : c.Ok) {p : Str} {x : Char} (hx : x ∈ nrm c p) : x = c.sep ∨ x ∈ p := by
+  rw [nrm_eq h] at hx
+  rcases mem_canon hx with e | ⟨f, hf, hxf⟩
+  · exact Or.inl e
+  · exact mem_replaceAlt ((mem_comps hf).2.2 x hxf)
+theorem dirname_canon {c : Cfg} (h : c.Ok) {l : List Str} (hl : Comps c l) :
+    dirname c (canon c.sep l) = canon c.sep l.dropLast := by
+  rcases List.eq_nil_or_concat l with rfl | ⟨init, a, rfl⟩
+  · rw [dirname, split_canon_nil h]; rfl
+  · rw [List.concat_eq_append] at hl ⊢
+    rw [dirname, split_canon_concat h init a hl]; simp
+theorem dropLast_dispComps (c : Cfg) (l : List Str) :
+    (dispComps c l).dropLast = l.dropLast.map (lowerStr c) := by
+  rcases List.eq_nil_or_concat l with rfl | ⟨init, a, rfl⟩
+  · rfl
+  · rw [List.concat_eq_append, dispComps_concat]; simp
+theorem nrm_eq_cs (c : Cfg) (p : Str) : normalizePath { c with cs := true } p false = nrm c p := by
+  rw [normalizePath_cs (c := { c with cs := true }) rfl]; rfl
+theorem normalizePath_true_def {c : Cfg} (hcs : c.cs = false) (p : Str) :
+    normalizePath c p true = join c [lowerStr c (dirname c (nrm c p)), basename c (nrm c p)] := by
+  simp [normalizePath, nrm, hcs]
+
+theorem flattenArgs_append (l r : List JArg) : flattenArgs (l ++ r) = flattenArgs l ++ flattenArgs r := by
+  induction l with
+  | nil => simp [flattenArgs]
+  | cons a as ih => simp [flattenArgs, ih]
+
+theorem flattenArgs_strs (ps : List Str) : flattenArgs (ps.map JArg.str) = ps := by
+  induction ps with
+  | nil => rfl
+  | cons p ps ih => simp [flattenArgs, JArg.flatten, ih]
+
 end CS.Path
